@@ -11,7 +11,7 @@ from lib import (Check, COMMON_TRUSTED, NCPU, VERIF, coq_list, coq_str, known_fo
 
 PROP = "C10"
 RUNNER = VERIF / "harness" / "fstrace.py"
-VARIANT = "fixed"          # the behaviour the theorems of Props/C10.v, Props/C11.v are about
+VARIANT = "fixed"          # the first round of repairs (Model/Build.v); current_variant() adds what the tree under test has on top
 
 COQ_HEADER = ("From Coq Require Import String List.\nFrom JMCV Require Import Model.FS Model.Build Run.C10.\n"
               "Import ListNotations.\nOpen Scope string_scope.\n")
@@ -27,7 +27,13 @@ TRUSTED = [t for t in COMMON_TRUSTED if not t.startswith("MC/")] + [
     "harness captures from the same real run (DataPack.build wrapper in fstrace.py)",
     "harness/fstrace.py: observes mutations by wrapping os.mkdir/unlink/rmdir/remove/rename/replace and io.open in the "
     "runner process (Python 3.12 shutil.rmtree / pathlib); a mutation done through another API would only be seen in the "
-    "before/after snapshots (which are compared too)",
+    "before/after snapshots (which are compared too); os.replace/os.rename of a regular file is recorded as the two halves of "
+    "Model/FS.v rename_ops (Replace dst <bytes of src>, Unlink src) - the model's crash prefixes also contain the state between "
+    "the halves, which the kernel never exposes",
+    "which of the two later repairs (function tags read before the first mutation: fixes/C10-function-tags-read-first.patch; "
+    "jmc.txt written through jmc.txt.tmp + os.replace: fixes/C11-atomic-cert.patch) the tree under test contains is detected by "
+    "two witness builds (detect_variant); the model is run with the matching flags (theorems hold for every `sound` variant), "
+    "the behaviour of a tree without a repair is reported as its known finding",
     "function-tag files are compared in parsed form ({\"values\": [...]} in json.dump(indent=4) layout = Tag, anything "
     "unparsable = Raw); tag files with extra keys, #credit, custom pack.mcmeta entries and non-default pack formats "
     "other than 48/26 are not generated",
@@ -43,6 +49,40 @@ def run_jobs(jobs: list[dict], chunk: int = 6, timeout: int = 900) -> list[dict]
     with ThreadPoolExecutor(max_workers=NCPU) as ex:
         res = list(ex.map(lambda c: run_py(RUNNER, c, timeout=timeout), chunks))
     return [r for rs in res for r in rs]
+
+
+# ----------------------------------------------------------------------------------- which behaviour does the tree have?
+
+_VARIANT: dict = {}
+
+
+def detect_variant() -> dict:
+    """Two witness builds on the tree under test (lib.REPO):
+    tags_early  - a malformed foreign data/minecraft/tags/function/load.json: the build stops with the JMCBuildError of
+                  read_func_tag WITHOUT having performed a mutation (else: after jmc.txt was written);
+    cert_atomic - a plain first build moves jmc.txt.tmp over jmc.txt with os.replace (else: writes jmc.txt in place)."""
+    if _VARIANT:
+        return _VARIANT
+    base = dict(ns="ns", pack_format="48", desc="d", out_exists=True, copy_src=None)
+    jobs = [dict(base, init=[["data/minecraft/tags/function/load.json", '{"values": [']], builds=[dict(src=fn("g"), header=None)]),
+            dict(base, init=[], builds=[dict(src=fn("g"), header=None)])]
+    flags = dict(tags_early=False, cert_atomic=False, probe_ok=False)
+    try:
+        r_tag, r_cert = run_jobs(jobs)
+        b_tag, b_cert = r_tag["builds"][0], r_cert["builds"][0]
+        flags["tags_early"] = real_result(b_tag) == "RTagErr" and not b_tag["trace"] and b_tag["before"] == b_tag["after"]
+        flags["cert_atomic"] = any(ev[0] == "replace" and ev[1] == "data/ns/jmc.txt" for ev in b_cert["trace"])
+        flags["probe_ok"] = real_result(b_tag) == "RTagErr" and real_result(b_cert) == "RDone"
+    except Exception as e:  # noqa  (a broken tree: the correspondence below reports it)
+        flags["probe_error"] = repr(e)[:300]
+    _VARIANT.update(flags)
+    return _VARIANT
+
+
+def current_variant() -> str:
+    """Coq term of the Build.variant the tree under test is compared with: [fixed] plus the detected later repairs."""
+    f = detect_variant()
+    return f"(mkVariant false true true {'true' if f['tags_early'] else 'false'} {'true' if f['cert_atomic'] else 'false'})"
 
 
 # ----------------------------------------------------------------------------------- Coq terms
@@ -132,6 +172,8 @@ def op_term(ev, ff: str) -> str:
     kind, rel = ev[0], ev[1]
     if kind == "write":
         return f"Write {cpath(rel)} {ccontent(typed(rel, ev[2], ff))}"
+    if kind == "replace":
+        return f"Replace {cpath(rel)} {ccontent(typed(rel, ev[2], ff))}"
     name = {"mkdir": "Mkdir", "create": "Create", "unlink": "Unlink", "rmdir": "Rmdir"}.get(kind)
     if name is None:
         raise Unmodelled(f"mutation {kind}")
@@ -204,8 +246,9 @@ def override_order(overrides: list[str], trace: list) -> list[str]:
     return sorted(overrides, key=lambda o: (first.get(o, 10**9), o))
 
 
-def case_term(job: dict, bi: int, b: dict, variant: str = VARIANT, ov_order: list[str] | None = None) -> tuple[str, dict]:
+def case_term(job: dict, bi: int, b: dict, variant: str | None = None, ov_order: list[str] | None = None) -> tuple[str, dict]:
     """Coq term of type Run.C10.case for build number bi of the job, plus a small description."""
+    variant = variant or current_variant()
     f = b["facts"]
     ns, pf, desc = job.get("ns", "ns"), f.get("pack_format") or job.get("pack_format", "48"), job.get("desc", "d")
     ff = f.get("ff") or ("function" if float(pf) >= 48 else "functions")
@@ -385,6 +428,8 @@ def gen_init(rng) -> tuple[dict, dict]:
     if rng.random() < 0.35:
         init += [["data/minecraft/keep/m.txt", "vanilla override kept by hand"]]
         has["../minecraft/keep"] = True
+    if mck in ("tags", "stale", "malformed", "novalues") and rng.random() < 0.3:
+        has["../minecraft/tags"] = True          # a #static that shields the function-tag files themselves
     if rng.random() < 0.4:
         init += [["data/foo/function/old.mcfunction", "say foo old"]]
         if rng.random() < 0.5:
@@ -397,8 +442,13 @@ def gen_init(rng) -> tuple[dict, dict]:
             copy_src += [["extra/x.txt", "X"], ["extra/sub/y.txt", "Y"]]
         if rng.random() < 0.4:
             copy_src += [["data/ns2/function/c.mcfunction", "say c"]]
-        if rng.random() < 0.25:
+        u = rng.random()
+        if u < 0.25:
             copy_src += [["data/minecraft/tags/function/load.json", canon(["copied:init"])]]
+        elif u < 0.33:       # an unparsable / "values"-less tag file arrives through #copy
+            copy_src += [["data/minecraft/tags/function/" + rng.choice(["load.json", "tick.json"]), rng.choice(['{"values": [', '{"replace": false}'])]]
+        elif u < 0.38:
+            copy_src += [["data/minecraft/tags/function/tick.json", canon(["copied:tick", "ns:__tick__"])]]
         if rng.random() < 0.15:
             copy_src += [["emptydir", None]]
         rng.shuffle(copy_src)
@@ -498,6 +548,27 @@ def fixed_histories() -> list[dict]:
         dict(base, init=[["data/minecraft/tags/function/load.json", canon(["other:init", "ns:stale"])],
                          ["data/minecraft/tags/function/tick.json", canon(["other:t"])]], builds=[dict(src=A, header=None), dict(src=B, header=None)]),
         dict(base, init=[["data/minecraft/tags/function/load.json", '{"values": [']], builds=[dict(src=A, header=None)]),
+        # which tag file does the build merge into?  (read before the first mutation by fixes/C10-function-tags-read-first.patch)
+        # - an unparsable tag of the OLD output is deleted with data/minecraft: the build succeeds
+        dict(base, init=[["data/ns/jmc.txt", cert], ["data/minecraft/tags/function/load.json", '{"values": [']],
+             builds=[dict(src=A, header=None), dict(src=B, header=None)]),
+        # - #copy replaces the unparsable foreign tag (fresh namespace / rebuild): the build succeeds and merges the copied values
+        dict(base, init=[["data/minecraft/tags/function/load.json", '{"values": [']],
+             copy_src=[["data/minecraft/tags/function/load.json", canon(["copied:init", "ns:stale"])]],
+             builds=[dict(src=A, header='#copy "cp"'), dict(src=B, header='#copy "cp"')]),
+        # - the unparsable / "values"-less tag arrives through #copy (fresh namespace, then rebuild over a good output)
+        dict(base, init=[["readme.txt", "x"]], copy_src=[["top.txt", "T"], ["data/minecraft/tags/function/tick.json", '{"values": [']],
+             builds=[dict(src=A, header='#copy "cp"')]),
+        dict(base, init=[], copy_src=[["data/minecraft/tags/function/load.json", '{"replace": false}'], ["extra/x.txt", "X"]],
+             builds=[dict(src=A, header=None), dict(src=B, header='#copy "cp"'), dict(src=B, header=None)]),
+        # - a #static shields the tag files from the deletion: unparsable -> error; parsable -> foreign values survive the rebuild
+        dict(base, init=[["data/ns/jmc.txt", cert], ["data/ns/function/old.mcfunction", "o"],
+                         ["data/minecraft/tags/function/tick.json", '{"values": [']],
+             builds=[dict(src=A, header='#static "../minecraft/tags"'), dict(src=A, header=None)]),
+        dict(base, init=[["data/ns/jmc.txt", cert], ["data/minecraft/tags/function/load.json", canon(["other:init", "ns:old"])],
+                         ["data/minecraft/loot_table/x.json", "{}"]],
+             builds=[dict(src=A, header='#static "../minecraft/tags"'), dict(src=B, header='#static "../minecraft/tags/function"'),
+                     dict(src=B, header=None)]),
         # deletion failure
         dict(base, init=[["data/ns/jmc.txt", cert], ["data/ns/function/old.mcfunction", "o"], ["data/ns/function/z/w.mcfunction", "w"]],
              builds=[dict(src=B, header=None, oserror_path="data/ns/function/old.mcfunction"), dict(src=B, header=None)]),
@@ -540,7 +611,7 @@ def describe_change(b: dict) -> list:
     return out
 
 
-def run_histories(prop: str, jobs: list[dict], variant: str = VARIANT, prefix: str = "cases"):
+def run_histories(prop: str, jobs: list[dict], variant: str | None = None, prefix: str = "cases"):
     """Run jobs on the real compiler, evaluate every build as a Coq case.
     Returns list of records {job, bi, build, code, info|unmodelled}, and coq errors."""
     results = run_jobs(jobs)
@@ -598,7 +669,7 @@ def replay_obj(rec: dict, what: str) -> dict:
     bits = [BITS[k] for k in BITS if rec["code"] and rec["code"] & k]
     return dict(kind=what, history=rec["job"], build_index=rec["bi"], failed_checks=bits, code=rec["code"],
                 real=dict(stage=b["stage"], exc=b["exc"], trace=[e[:2] for e in b["trace"]], changed=describe_change(b)),
-                expected="model Build.run (variant fixed) on the recorded tree: same mutation sequence, same tree, "
+                expected=f"model Build.run (variant {current_variant()}) on the recorded tree: same mutation sequence, same tree, "
                          "every changed path inside the territory, #static folders and failed compiles unchanged",
                 how_to_replay="./check %s --replay <this file>" % rec.get("prop", PROP))
 
@@ -666,7 +737,7 @@ def main(tier: str) -> int:
         disagreements_checked=len([r for r in recs if r.get("code")]),
         samples=[dict(init=r["job"]["init"][:4], build=r["job"]["builds"][r["bi"]], result=r["info"]["result"],
                       n_mutations=r["build"]["n_mut"]) for r in builds[:40:8] if "info" in r],
-        variant=VARIANT,
+        variant=current_variant(), variant_probe=dict(detect_variant()),
     ))
     return ck.finish()
 
@@ -676,7 +747,7 @@ PROPOSED_KNOWN = {
         id="C10-malformed-tag-after-mutation", property="C10",
         what="a build that stops with JMCBuildError on an unparsable function-tag file (data/minecraft/tags/function/load.json|tick.json "
              "left by another pack or copied in by #copy) has already written jmc.txt / copied files - compiling.py:321-336 read_func_tag "
-             "after make_cert; theorem C10_tag_error_noop_refuted",
+             "after make_cert; theorem C10_tag_error_noop_refuted_fixed; repaired by fixes/C10-function-tags-read-first.patch",
         match=dict(result="RTagErr", model_agrees=True)),
 }
 
